@@ -59,6 +59,34 @@ def r1_run_xmlsec(run):
         run.check(not h.swallows(), "R1", h.key,
                   "a failed report re-raises", "a failed report is swallowed",
                   h.loc())
+    # the result file is created for this invocation (or emptied first): a run
+    # that writes nothing must read back nothing
+    org = Origins(cfg)
+    reads = [(nd, c) for nd, c in cfg.call_nodes("read")]
+    fresh = False
+    src_txt = []
+    for nd, c in reads:
+        if not isinstance(c.func, ast.Attribute):
+            continue
+        atoms = org.of(c.func.value, nd.id)
+        src_txt += [repr(a) for a in atoms]
+        if atoms and all(a.kind == "call" and
+                         a.text in ("NamedTemporaryFile", "mkstemp",
+                                    "tempfile.NamedTemporaryFile",
+                                    "TemporaryFile") for a in atoms):
+            fresh = True
+    truncs = [nd for nd, c in cfg.call_nodes("truncate")]
+    popens = [nd for nd, c in cfg.call_nodes("Popen")]
+    emptied = bool(truncs) and bool(popens) and all(
+        any(cfg.dominates(t.id, p.id) for t in truncs) for p in popens)
+    run.check(bool(reads) and (fresh or emptied), "R1",
+              fi.qual + "::fresh-output-file",
+              "the --output file is created inside this invocation (or "
+              "truncated before the tool starts)",
+              "the result is read from a file that outlives the invocation "
+              "(%s) and is not emptied before the tool runs: a run that writes "
+              "nothing returns the previous run's output as its own" %
+              sorted(set(src_txt)), fi.loc())
     # call sites
     allowed_off = {"encrypt", "encrypt_assertion", "decrypt", "sign_statement"}
     seen = {}
